@@ -48,18 +48,19 @@ type Obligation struct {
 
 // runHooks collects what a run (all paths of one instance) produced.
 type runHooks struct {
-	obls       []Obligation
-	paths      int
-	dropped    int // paths ended by infeasible assumptions
-	aborted    map[string]int
-	reached    map[string]bool
-	uncaught   []Obligation
-	unknownBr  int
-	maxPaths   int
-	pathNo     int
-	kfOpen     map[string]bool
-	concrete   map[string]string // concrete-mode nondet values (validation)
-	observeLog []string
+	obls          []Obligation
+	paths         int
+	dropped       int // paths ended by infeasible assumptions
+	endedByAssert int
+	aborted       map[string]int
+	reached       map[string]bool
+	uncaught      []Obligation
+	unknownBr     int
+	maxPaths      int
+	pathNo        int
+	kfOpen        map[string]bool
+	concrete      map[string]string // concrete-mode nondet values (validation)
+	observeLog    []string
 }
 
 func (ex *Exec) assume(c *Term) {
